@@ -7,12 +7,12 @@ CHECKS = {
  "C12": dict(
    technique="bounded exhaustive enumeration of stored-row tuples x compositions x arm-change variants x cluster/tree settings x policies; cell membership taken from the fitted scikit-learn object, expectations compared with the policy re-trained on exactly the cell's rows",
    text="Every tuple of up to n points of a 5-point grid is stored through every composition into fit + partial_fit* (with add_arm / remove_arm variants) under KMeans(2), MiniBatchKMeans(2), KMeans(3) and three tree parameter sets; for every grid query the expectations must be those of the learning policy trained from scratch on exactly the rows sharing the query's cluster / the arm's rewards sharing the query's leaf.",
-   note="scikit-learn trusted for labels_/predict/apply; queries on centroid ties skipped and counted; n<=4 (quick, with reductions stated in the evidence) / n<=5 (thorough)",
+   note="scikit-learn trusted for labels_/predict/apply; queries on centroid ties skipped and counted; n<=4 (quick, with reductions stated in the evidence) / n<=5 (thorough); variants: add_arm, remove_arm, 'query then fit again on one arm's rows'",
    ref="DESIGN.md section 7 (C12)"),
  "C20": dict(
    technique="exhaustive enumeration of relabellings x combinations, of all n! row permutations of every training subset, and of reward shift/scale constants over all short histories; metamorphic oracles",
    text="(a) a scenario covering training, arm changes and predictions is run under four relabellings (type and sort order changed) for every combination and must produce the renamed outputs with the same draws; (b) every permutation of every subset of up to 5 fixed rows gives the same expectations for context-free, linear and Radius/LSHNearest bandits; (c) reward shift / scale laws hold on every row sequence (n<=3) and composition in which every arm is observed.",
-   note="bit-exact on the exactly summable alphabet, 1e-9 for linear policies; KNearest excluded from (b) as the statement allows",
+   note="relabellings incl. unequal-length strings; permutations both for a single fit and for rows fed one call at a time; bit-exact on the exactly summable alphabet, 1e-9 for linear policies; KNearest excluded from (b) as the statement allows",
    ref="DESIGN.md section 7 (C20)"),
  "C13": dict(
    technique="explicit-state BFS over the real bandit from every (policy, feature assignment, trained subset) initial state over {warm_start x 5 quantiles, partial_fit, fit, add_arm, remove_arm}; status-machine reference model in lock-step; per-transition rule oracle",
@@ -27,12 +27,12 @@ CHECKS = {
  "C04": dict(
    technique="exhaustive enumeration of all order-preserving interleavings of a subject script with an interfering bandit's script (56 merges x 3 interferer kinds x every combination); fresh-interpreter runs over a hash-seed alphabet",
    text="The 5-step script of a seeded bandit is interleaved in every possible way with the 3-step script of another bandit with another seed (built from the very same policy tuple objects, from default-constructed tuples, or a TreeBandit) and must produce the outputs it produces alone; the script is also executed in fresh interpreters with PYTHONHASHSEED 0, 1, 4242 and random. TreeBandit subjects use a driver in which the random_state-dependent split choice is observable.",
-   note="single-threaded numerical kernels as the property assumes; one subject script per combination",
+   note="single-threaded numerical kernels as the property assumes; one subject script per combination (TreeBandit subjects add an arm and train it on tied columns); a fourth interferer draws from / re-seeds numpy's and random's process-wide generators",
    ref="DESIGN.md section 7 (C04)"),
  "C18": dict(
    technique="deviation-bounded exhaustive enumeration of container encodings (all assignments differing from the all-lists baseline in <= B of 7 data axes) per policy combination, with byte-level before/after snapshots of every caller object",
    text="A scenario covering all eight public methods is executed for every encoding assignment within the deviation bound (lists, int/float ndarrays, Fortran/strided/transposed views, Series with non-monotonic index, DataFrames with labels); outputs must equal the baseline and no object passed in (data, arms list, policy parameter objects, feature dict) may change; Series single-row / single-feature disambiguation scenarios are compared with their list equivalents.",
-   note="B = 2 (quick) / 3 (thorough); int arm labels; exact comparison (1e-9 for linear policies)",
+   note="B = 2 (quick) / 3 (thorough) with int labels; one deviating axis with str labels and with non-dyadic float contexts incl. read-only buffers; exact comparison (1e-9 for linear policies)",
    ref="DESIGN.md section 7 (C18)"),
  "C06": dict(
    technique="bounded exhaustive enumeration of row sequences x all compositions into fit + partial_fit* per policy combination; differential oracle against the single-fit bandit (canonical object-graph identity after generator alignment, else output comparison)",
@@ -42,37 +42,37 @@ CHECKS = {
  "C17": dict(
    technique="explicit-state BFS over valid histories (plus five named stages) x exhaustive catalogue of invalid calls injected at every position; decided by bit-identity of the canonical object graph with the pre-call twin, else by exhaustive continuation comparison",
    text="For every policy combination, at every state of the bounded search and in five named stages (unfitted, fitted, fitted+partial_fit, cold arm listed last / first), every invalid call of the catalogue (~30-42 classes over all eight public methods) is injected once. If the library rejects it, the arm list must be unchanged and the complete object graph must be bit-identical to the twin copied before the call (identical graphs have identical futures); if it differs, every continuation up to depth 2 must give identical outputs.",
-   note="errors raised during prediction are compared after aligning generator positions; calls the library accepts are counted, not judged",
+   note="26 rejected constructor calls (arguments, an existing bandit and later-built bandits unaffected); rejected training calls in 'same width' and 'other width' flavours; positions after predictions included; errors raised during prediction are compared after aligning generator positions; calls the library accepts are counted, not judged",
    ref="DESIGN.md section 7 (C17)"),
  "C15": dict(
    technique="bounded exhaustive enumeration of simulations (bandit lists x data sets x test_size x split mode x every batch size x is_quick) with a differential oracle: replay of each run through the public API on copies taken before the Simulator was built",
    text="Every policy combination singly and every ordered pair of Radius/KNearest bandits with different metrics is simulated over the full product of the parameter alphabet (including every batch size 0..|test|); each run is replayed through fit/predict/predict_expectations/partial_fit with the recomputed split and must report the same predictions (and expectations for deterministic policies).",
-   note="6-10 rows on integer grids with boundary rows; train_test_split trusted; randomised policies compared on predictions only",
+   note="6-12 rows on integer grids with boundary rows, a non-degenerate float grid for seuclidean / mahalanobis and a one-decimal grid (distances within single precision of the radius); train_test_split trusted; randomised policies compared on predictions only",
    ref="DESIGN.md section 7 (C15)"),
  "C16": dict(
    technique="bounded exhaustive enumeration of simulations; every reported quantity recomputed independently from the raw data (split, per-arm statistics, evaluation rule incl. neighbourhood statistics by integer distance arithmetic)",
    text="For each bandit kind, data set with arms absent from train/test, test size, split mode, every batch size and is_quick, the simulator's split, statistics, prediction count and min/avg/max analyses are compared with a from-scratch recomputation of the documented rules.",
-   note="LSH neighbourhood statistics are taken as reported; KNearest rows with tied k-th distance use the reported neighbourhood (counted)",
+   note="the account of the previous simulation is re-read after each further simulation; LSH neighbourhood statistics are taken as reported; KNearest rows with tied k-th distance use the reported neighbourhood (counted)",
    ref="DESIGN.md section 7 (C16)"),
  "C05": dict(
    technique="exhaustive enumeration of partitions, compositions and completion orders through a joblib model driven by the explorer; stateless preemption-bounded schedule exploration (sys.monitoring INSTRUCTION-level scheduler, real threads, one running at a time) of the shared-memory regions; conformance runs against real joblib",
    text="(1) _partition_contexts is checked for every n<=64, n_jobs and cpu count; (2) for every neighbourhood combination, every query batch up to the bound, every composition into contiguous chunks is run through the library's own _parallel_predict on isolated pickled copies and on the shared object in every completion order and must give the n_jobs=1 result; (3) per-arm fit tasks, LSH insert tasks and threading-backend prediction tasks are executed under every schedule with at most B preemptions at attribute/subscript/call granularity and must reproduce the sequential model and outputs, plus a free-running recorder pass checking disjoint write sets; (4) the joblib model is compared with real joblib backends.",
-   note="batches <=4 rows (quick) / <=6 (thorough); preemption bound 1 / 2; NumPy/scikit-learn calls atomic; only receivers in the shared bandit graph are preemptible; known finding F-C05-a (TreeBandit draws from the main generator inside tasks) attributed by trigger + in-memory repair",
+   note="batches <=4 rows (quick) / <=6 (thorough), also under data-dependent metrics (seuclidean, mahalanobis, cosine); preemption bound 1 / 2; NumPy/scikit-learn calls atomic; only receivers in the shared bandit graph are preemptible; known finding F-C05-a (TreeBandit draws from the main generator inside tasks) attributed by trigger + in-memory repair",
    ref="DESIGN.md sections 3.4 and 7 (C05)"),
  "C11": dict(
    technique="bounded exhaustive enumeration of stored-row tuples over {-1,0,1}^d x assignments x compositions x LSH settings x n_jobs x queries (stored, scaled, grid, zero) against an exact-rational sign-pattern oracle built from the bandit's own hyperplanes",
    text="Every tuple of up to n vectors of {-1,0,1}^d (zero vector included) is stored through every composition into fit + partial_fit*, for three (n_dimensions, n_tables) settings and hashing with n_jobs 1 and 2; for every query of the alphabet the expectations must equal the learning policy trained on exactly the rows whose exact sign pattern collides with the query's in at least one table, NaN if none; scaled queries must agree with the original and a stored row must find itself.",
-   note="planes are read from the fitted bandit (they are random but fixed at fit time); projections are evaluated in exact rationals; d=1 n<=4, d=2 n<=3, d=3 n<=2 (quick); more seeds and rows in thorough",
+   note="planes are read from the fitted bandit (they are random but fixed at fit time); projections are evaluated in exact rationals; d=1 n<=4, d=2 n<=3, d=3 n<=2 (quick); three seeds, all arm assignments and d=1 n<=5 in thorough; half of the histories are preceded by an earlier life of the same bandit (fit + query)",
    ref="DESIGN.md section 7 (C11)"),
  "C03": dict(
    technique="bounded exhaustive enumeration of stored-row tuples x arm assignments x compositions x metric x radius/k x policy x grid queries against an integer-arithmetic neighbourhood oracle (reference policy re-trained on the oracle's rows)",
    text="Every tuple of up to n grid points as stored contexts, with arm assignments, compositions into fit + partial_fit*, four metrics, radii on exact distance values (boundary included, sqrt(2) for euclidean), every k, and every grid point as query (batch and single row) is executed; expectations must equal the library's learning policy trained from scratch on exactly the oracle's neighbourhood (any admissible KNearest tie-break), empty neighbourhoods give NaN and the replicated empty-neighbourhood draw.",
-   note="grids {0..3}, {0,1,2}x{0,1}, a metric-order-sensitive 5-point grid (quick); 3x3 grid and n<=4 (thorough); scipy cdist not trusted (oracle uses integers), the learning policy is (C01/C02 judge it)",
+   note="grids {0..3}, {0,1,2}x{0,1}, a metric-order-sensitive 5-point grid (quick); 3x3 grid and longer tuples (thorough); radii over every distance value of the grid; a third of the bandits first live an earlier life (fit + query) before the history; scipy cdist not trusted (oracle uses integers), the learning policy is (C01/C02 judge it)",
    ref="DESIGN.md section 7 (C03)"),
  "C02": dict(
    technique="bounded exhaustive enumeration of training histories (row sequences x compositions into fit+partial_fit x arm additions x query batch sizes) against an exact-rational ridge-regression reference executed in lock-step",
    text="For every policy setting, lambda, scale flag and feature count 1..3, every row sequence up to the length bound over the row alphabet, every composition into fit + partial_fit*, three arm-addition variants and query batches of 1..3 rows are executed on the implementation and compared with Gaussian elimination over fractions. Exhaustive within the alphabet.",
-   note="n<=3 rows over 4 rows (quick) / n<=4 over 6 rows (thorough); tolerance 1e-9 (1e-6 for LinTS at alpha=1e-9 and for scale=True); known finding F-C02-a (unobserved-arm covariance) is attributed by trigger + in-memory repair",
+   note="n<=3 rows over 4 rows (quick) / n<=4 over 5 rows (thorough), real-valued and negative contexts included, plus one 703-row single-fit history per configuration; tolerance 1e-9 (1e-6 for LinTS at alpha=1e-9 and for scale=True); known finding F-C02-a (unobserved-arm covariance) is attributed by trigger + in-memory repair",
    ref="DESIGN.md section 7 (C02), section 8"),
  "C01": dict(
    technique="explicit-state BFS over the real bandit in lock-step with an exact-rational reference model (product state = bandit digest x reference state); sampler replayed bit-exactly on a cloned generator",
@@ -82,22 +82,22 @@ CHECKS = {
  "C07": dict(
    technique="explicit-state BFS over the real bandit (prior histories, canonical-digest de-duplication) x exhaustive D/continuation alphabet; differential oracle against a freshly constructed bandit",
    text="Every prior history up to the depth bound over {fit, partial_fit, add_arm, remove_arm, warm_start, predict}, for every policy combination, is followed by fit(D) for every D of the alphabet and every one-step continuation; the refitted bandit must be observationally equal to a fresh one fit on D from the same stream position. Exhaustive within the stated alphabet, executed on the implementation itself.",
-   note="alphabet: 2-3 arms, 5 data sets D, depth 2 (quick) / 3 (thorough); LinTS compared on expectations at alpha=1e-9 where generator identities differ; scikit-learn trusted",
+   note="alphabet: 2-3 arms, 4 data sets D, prior histories of depth 2 (quick) / 3 (thorough) incl. queries, warm start and a call in which an arm has data but zero sums; LinTS compared on expectations at alpha=1e-9 where generator identities differ; scikit-learn trusted",
    ref="DESIGN.md section 7 (C07)"),
  "C08": dict(
    technique="explicit-state BFS over the real bandit from the unfitted state (arm changes x training calls, canonical-digest de-duplication); shape/membership/order invariant evaluated in every fitted state for 0/1/2/3 query rows",
    text="All histories up to the depth bound over {fit, partial_fit, add_arm, remove_arm incl. re-adding, warm_start} from the unfitted bandit are executed for every policy combination, three label types and n_jobs 1/2; in every reached fitted state the outputs of predict and predict_expectations are checked against the current arm list. Exhaustive within the alphabet; states de-duplicated by a digest of the complete object graph.",
-   note="depth 3 (quick) / 4 (thorough); n_jobs=2 runs through the joblib model of mcx/sched.py (isolated pickled workers) whose conformance with real joblib is checked in C05; KNearest states with fewer rows than k are out of domain",
+   note="depth 3 (quick; 2 for float labels and n_jobs=2) / 4 (thorough); the BFS alphabet contains a prediction made by the bandit itself, and every state is probed with 'query, equal-count arm swap, query'; n_jobs=2 runs through the joblib model of mcx/sched.py (isolated pickled workers) whose conformance with real joblib is checked in C05; KNearest states with fewer rows than k are out of domain",
    ref="DESIGN.md section 7 (C08)"),
  "C09": dict(
    technique="explicit-state BFS (same search as C08) extended with tie and near-tie training sets; per-state differential check predict vs arg-max of predict_expectations from the same stream position",
    text="In every fitted state of the bounded search, for every query size, predict and predict_expectations are executed on two deep copies (same model, same stream position) and compared row by row against the first-maximum rule; exact ties (unobserved arms, zero rewards) and near ties (means differing by 2^-30, both arm orders) are part of the alphabet.",
-   note="depth 3/4; TreeBandit+EpsilonGreedy(eps>0) excluded as in the statement; rows whose expectations contain NaN only require a current arm",
+   note="depth 3/4 with predictions in the alphabet and the post-query arm-swap probe; TreeBandit+EpsilonGreedy(eps>0) excluded as in the statement; rows whose expectations contain NaN only require a current arm",
    ref="DESIGN.md section 7 (C09)"),
  "C10": dict(
    technique="explicit-state BFS over the real bandit; in every fitted state: query programs x continuations enumerated exhaustively, queried copy vs never-queried twin after generator positions are aligned by object-graph path",
    text="For every reachable state within the bound, every query program of the alphabet and every continuation up to the continuation depth, the bandit that answered queries and its untouched twin must give identical outputs afterwards (n_jobs=1, and n_jobs=2 with thread and process semantics through the joblib model).",
-   note="BFS depth 2/3, continuation depth 1/2; where queries re-wire generator objects (not observable by itself) only randomness-free outputs are compared and the rest is counted as skipped",
+   note="BFS depth 2/3, continuation depth 2; bit-identity of the complete object graph after generator alignment decides all futures, otherwise continuations are compared; where queries re-wire generator objects (not observable by itself) only randomness-free outputs are compared and the rest is counted as skipped",
    ref="DESIGN.md section 7 (C10)"),
  "C19": dict(
    technique="explicit-state BFS over the real bandit (unfitted states included); per state: copy methods x continuations enumerated exhaustively, original vs copy differential oracle, plus restore in a fresh interpreter with another hash seed",
